@@ -79,7 +79,8 @@ def replay_hist(hist):
             elif op == "draw":
                 g = R._rng[-1]
                 fn = {1: lambda: R.Random.normal(np.float64, (3,)), 2: lambda: R.Random.uniform(np.complex128, (2,)),
-                      3: lambda: R.Random.pm1(np.int64, (4,))}[arg]
+                      3: lambda: R.Random.pm1(np.int64, (4,)), 4: lambda: R.Random.pm1(np.complex128, (5,)),
+                      5: lambda: R.Random.normal(np.complex128, (2,), 1., 2.), 6: lambda: R.Random.uniform(np.int64, (3,), 0, 9)}[arg]
                 x = fn()
                 sh = shadow.get(id(g))
                 if sh is not None:
@@ -161,8 +162,14 @@ def record_driver_traces(rng, ntraces):
                 for _ in range(rng.randint(1, 4)):
                     c = rng.random()
                     if c < 0.3:
-                        k = rng.choice([1, 2, 3])
-                        if k == 1:
+                        k = rng.choice([1, 2, 3, 4, 5, 6])
+                        if k == 4:
+                            ift.from_random(ift.RGSpace(4), "pm1", dtype=np.complex128)
+                        elif k == 5:
+                            ift.from_random(ift.RGSpace(2), "normal", dtype=np.complex128, mean=1., std=2.)
+                        elif k == 6:
+                            ift.from_random(ift.RGSpace(3), "uniform", dtype=np.int64, low=0, high=9)
+                        elif k == 1:
                             ift.from_random(ift.UnstructuredDomain(rng.choice([1, 2, 3])))
                         elif k == 2:
                             ift.from_random(ift.RGSpace(2), "uniform", dtype=np.float64)
